@@ -5,7 +5,7 @@ COQ_TARGET = "C14"
 TRUSTED = ["datetime.strptime('%H:%M') and str(timedelta) are modelled (Model/ScheduleTools.v strptime_HM, timedelta_str)"]
 ASSUMPTIONS = ["arguments are HH:MM strings; other spellings are compared with the model and not judged"]
 RULE = ("pairs of clock strings: all (s, s), (s, s+1), (s, s-1), the edges 00:00 / 23:59 against every minute, random pairs "
-        "(thorough: all 2 073 600 pairs against the Spec formula), one-digit spellings and malformed strings against the model; "
+        "(thorough: all 2 073 600 pairs against the Spec formula), one-digit spellings and malformed strings against the model; pairs under zones with DST on transition days (virtual clock); "
         "non-trivial = distinct pairs with start != end")
 REQUIREMENT = "calc_duration(HH:MM, HH:MM) = H:MM:SS of ((end - start) mod 1440) minutes; equal times give 0:00:00"
 
@@ -28,6 +28,20 @@ def run(tier, rnd, out):
     mo = lib.run_model([lib.req("duration", a, b) for a, b in pairs]); ex = lib.run_model([lib.req("duration_spec", a, b) for a, b in pairs])
     lib.differential(out, "pairs", cases, io, mo, ex, lambda c: "calc_duration(%r, %r)" % (c["start"], c["end"]),
                      nontrivial=lambda c: c["start"] != c["end"], sample=lambda c: c, classify=lambda c, i: i.split(" ")[0])
+    # the duration of two clock strings does not depend on the host zone or on today's date
+    import datetime as D, zoneinfo
+    for zone in (["Europe/Berlin", "America/New_York", "Australia/Lord_Howe"] if tier == "quick" else world.ZONES_QUICK + world.ZONES_MORE):
+        tr = world.transitions_in(zone, 1_600_000_000, 2_000_000_000)
+        nows = [t + k for t in rnd.sample(tr, min(len(tr), 2 if tier == "quick" else 6)) for k in (-7200, 3600, 40000)] or [1_700_000_000]
+        zc = []
+        for now in nows:
+            for _ in range(60 if tier == "quick" else 400):
+                s_ = rnd.randrange(1440); e_ = rnd.choice([s_, (s_ + 60) % 1440, (s_ + 180) % 1440, rnd.randrange(1440), rnd.randrange(0, 300)])
+                zc.append({"zone": zone, "now": now, "start": hm(s_), "end": hm(e_)})
+        io = world.zone_job(zone, "duration", zc)
+        mo = lib.run_model([lib.req("duration", c["start"], c["end"]) for c in zc]); ex = lib.run_model([lib.req("duration_spec", c["start"], c["end"]) for c in zc])
+        lib.differential(out, "under-zones-on-transition-days", zc, io, mo, ex, lambda c: "zone %s now %d calc_duration(%r, %r)" % (c["zone"], c["now"], c["start"], c["end"]),
+                         nontrivial=lambda c: c["start"] != c["end"], sample=lambda c: c, classify=lambda c, i: c["zone"])
     if tier == "thorough":
         bad = None; n = 0
         for s in range(1440):
@@ -43,5 +57,9 @@ def run(tier, rnd, out):
 
 def replay(rp, out):
     c = rp["input"]; a, b = c["start"], c["end"]
+    if "zone" in c:
+        io = world.zone_job(c["zone"], "duration", [c])
+        lib.differential(out, "replay", [c], io, lib.run_model([lib.req("duration", a, b)]), lib.run_model([lib.req("duration_spec", a, b)]), lambda c: "zone %s now %d calc_duration(%r, %r)" % (c["zone"], c["now"], a, b))
+        return
     lib.differential(out, "replay", [c], [impl(a, b)], lib.run_model([lib.req("duration", a, b)]), lib.run_model([lib.req("duration_spec", a, b)]),
                      lambda c: "calc_duration(%r, %r)" % (c["start"], c["end"]))
